@@ -389,6 +389,17 @@ func c09Stop(rng *rand.Rand, phase string) (sig, detail string, trace []string) 
 			return fail("dial-after-cancel", "%d further dial(s) started after the Connect context was cancelled before the first success", n-dialsBefore)
 		}
 		if !closedOK {
+			// the cancellation can lose the race against the CONNACK of that dial: Connect (library-internal)
+			// then succeeded and the client legitimately stays connected in the background
+			accepted := false
+			for _, e := range tr.Snapshot() {
+				if e.Kind == memnet.KState && e.S == "Active" {
+					accepted = true
+				}
+			}
+			if accepted {
+				return "", "", nil
+			}
 			if scen.CertifyStuck(tr, &memnet.Conn{Tr: tr}) {
 				return fail("transport-left-open-after-cancel", "the transport handed out by the dial that was in progress when the context was cancelled was never closed by the library")
 			}
@@ -473,7 +484,7 @@ func init() {
 		Level: "fault_enumeration",
 		Rule: "life: seeded sequences of connection-ending causes (idle peer close, malformed packet from the broker, refused CONNACK codes 1-5, absent CONNACK with a connect timeout, cuts of 4 kinds on any request packet, dial errors incl. runs of consecutive failures, keep-alive silence, outages of random length) on the real ReconnectClient with back-off (base,max) in {(1,1),(1,8),(2,16),(4,4),(8,2),(3,5)} ms; " +
 			"monitor: at every dial.start all earlier transports have been closed by the library; first packet of every connection is exactly one CONNECT with identical client id/options; the gap between the end of an attempt (dial error return / first library Close of that transport) and the next dial.start is >= min(base*2^k, max) with k reset by a successful connect (sound lower bound); after faults stop a connection is established (sentinel). " +
-			"stop: Disconnect steered into every phase (connected, back-off wait before/after a first connection, inside DialContext of the first/a later dial, waiting for CONNACK), cancellation before the first success with a 60 s back-off, and cancellation while the first dial is in progress (the transport it hands out must be closed, no further dial), cancellation exactly when the first CONNACK is accepted (a later Disconnect must still return); Disconnect must return without panic, no dial.start afterwards. Non-trivial: runs with >=1 redial; each stop phase executed.",
+			"stop: Disconnect steered into every phase (connected, back-off wait before/after a first connection, inside DialContext of the first/a later dial, waiting for CONNACK), cancellation before the first success with a 60 s back-off, and cancellation while the first dial is in progress (the transport it hands out must be closed unless that connection got established, no further dial), cancellation exactly when the first CONNACK is accepted (a later Disconnect must still return); Disconnect must return without panic, no dial.start afterwards. Non-trivial: runs with >=1 redial; each stop phase executed.",
 		Assumptions: []string{"time.After never fires early on the monotonic clock the harness also reads, so lower bounds are sound under load", "absence of further dials after Disconnect is observed for 3x the maximum back-off"},
 		Gen:         c09Gen,
 		Run:         c09Run,
